@@ -158,7 +158,7 @@ func (t *Tr) translate(u *unit) {
 	if u.decl == nil || u.decl.Body == nil {
 		panic(trErr{fmt.Sprintf("no Go source body for %s", u.key)})
 	}
-	c := &fctx{t: t, u: u, info: u.pkg.info, env: map[envKey]string{}, used: map[string]bool{}, opq: map[string]opq{}}
+	c := &fctx{t: t, u: u, info: u.pkg.info, env: map[envKey]string{}, used: map[string]bool{}, opq: map[string]opq{}, ifaceLocals: map[*types.Var]bool{}}
 	c.function()
 }
 
@@ -188,6 +188,7 @@ type fctx struct {
 	retWrap func(r string) string      // a return of the (tupled) value r in the current context
 	fuelOut func() string              // "out of fuel" in the current context (fueled functions only)
 	resTys  []types.Type               // effective result types of the function (or function literal) being translated
+	ifaceLocals map[*types.Var]bool    // local interface variables bound once to a result of an opaque call
 	inLoop  int                        // nesting depth of loops at the current statement
 }
 
@@ -910,9 +911,10 @@ func (c *fctx) mutatedReceiver(call *ast.CallExpr) types.Object {
 	if !ok {
 		return nil
 	}
-	if _, isOpaque := c.opaqueName(f); isOpaque {
-		// an opaque method with pointer receiver called as a statement is taken to modify its receiver
-		if _, ptr := f.Type().(*types.Signature).Recv().Type().(*types.Pointer); ptr {
+	if _, ro, isOpaque := c.opaqueSpec(f); isOpaque {
+		// an opaque method with pointer receiver is taken to modify its receiver unless the
+		// directive says "name!ro"
+		if _, ptr := f.Type().(*types.Signature).Recv().Type().(*types.Pointer); ptr && !ro {
 			if o := c.baseVar(sel.X); o != nil && c.recOf(o) != nil {
 				return o
 			}
@@ -1324,13 +1326,21 @@ func (c *fctx) assign(s *ast.AssignStmt) string {
 				c.fail(s.Pos(), "multi-valued assignment from %T (map lookup, type assertion or channel receive)", s.Rhs[0])
 			}
 			term := c.callMulti(s.Rhs[0], len(s.Lhs))
-			tmps := make([]string, len(s.Lhs))
-			for i := range tmps {
-				tmps[i] = c.fresh("t")
+			var tmps []string
+			var keep []int
+			for i, l := range s.Lhs {
+				if c.ifaceResult(s.Rhs[0], i, l) {
+					continue // an interface value returned by an opaque call: only its opaque methods are used
+				}
+				tmps = append(tmps, c.fresh("t"))
+				keep = append(keep, i)
+			}
+			if len(tmps) == 0 {
+				return ""
 			}
 			out := fmt.Sprintf("let %s := %s in\n", pattern(tmps), term)
-			for i, l := range s.Lhs {
-				out += c.store(l, tmps[i])
+			for k, i := range keep {
+				out += c.store(s.Lhs[i], tmps[k])
 			}
 			return out
 		}
@@ -2316,20 +2326,33 @@ func (c *fctx) binop(op token.Token, t ty, a, b string, rt ty, p token.Pos) stri
 var mathFuncs = map[string]string{"Modf": "go_modf", "Floor": "go_floor", "Ceil": "go_ceil", "Abs": "go_abs", "Max": "go_fmax", "Min": "go_fmin", "Trunc": "go_trunc"}
 
 func (c *fctx) opaqueName(f *types.Func) (string, bool) {
+	n, _, ok := c.opaqueSpec(f)
+	return n, ok
+}
+
+// opaqueSpec: the opaque parameter name of f and whether the directive marks it read-only
+// ("name!ro": an opaque method with pointer receiver that does not update its receiver).
+func (c *fctx) opaqueSpec(f *types.Func) (string, bool, bool) {
 	if c.u.group.Opaque == nil {
-		return "", false
+		return "", false, false
 	}
 	key := funcKey(f)
+	n, ok := "", false
 	if f.Pkg() != nil {
-		if n, ok := c.u.group.Opaque[f.Pkg().Name()+"."+key]; ok {
-			return n, true
-		}
-		if f.Pkg().Path() != c.u.pkg.path {
-			return "", false
+		if n, ok = c.u.group.Opaque[f.Pkg().Name()+"."+key]; !ok && f.Pkg().Path() != c.u.pkg.path {
+			return "", false, false
 		}
 	}
-	n, ok := c.u.group.Opaque[key]
-	return n, ok
+	if !ok {
+		n, ok = c.u.group.Opaque[key]
+	}
+	if !ok {
+		return "", false, false
+	}
+	if strings.HasSuffix(n, "!ro") {
+		return strings.TrimSuffix(n, "!ro"), true, true
+	}
+	return n, false, true
 }
 
 func (c *fctx) opaqueVar(v *types.Var) (string, bool) {
@@ -2542,7 +2565,7 @@ func (c *fctx) callN(x *ast.CallExpr, nres int) string {
 				if isId {
 					ifv, _ = c.info.Uses[id].(*types.Var)
 				}
-				if ifv == nil || !c.isParam(ifv) {
+				if ifv == nil || !(c.isParam(ifv) || c.ifaceLocals[ifv]) {
 					c.fail(x.Pos(), "opaque interface method %s called on something other than an interface-typed parameter", name)
 				}
 				if n, idx := c.ifaceParams(ifv); n > 1 {
@@ -2561,7 +2584,11 @@ func (c *fctx) callN(x *ast.CallExpr, nres int) string {
 		}
 		var rs []string
 		for i := 0; i < sig.Results().Len(); i++ {
-			rs = append(rs, c.coqTy(c.typeOf(sig.Results().At(i).Type(), x.Pos()), x.Pos()))
+			rt := sig.Results().At(i).Type()
+			if isInterface(rt) && !isErrorType(rt) && sig.Results().Len() > 1 {
+				continue // not represented: see ifaceResult
+			}
+			rs = append(rs, c.coqTy(c.typeOf(rt, x.Pos()), x.Pos()))
 		}
 		tys = append(tys, strings.Join(rs, " * "))
 		c.addOpq(opq{name: name, typ: strings.Join(tys, " -> "), ifaceVar: ifv, method: f}, x.Pos())
